@@ -66,6 +66,9 @@ type PathState struct {
 	obs       []string
 	events    []Value
 	started   time.Time
+	pbTokens  []*pbToken
+	pbArrays  map[*Array]*pbToken
+	tsTokens  map[*Term]Value
 }
 
 // Results aggregates over all paths of one harness run (shared by workers).
@@ -573,7 +576,7 @@ type pathStats struct {
 
 // runPath executes the harness once along prefix.
 func (in *Interp) runPath(prefix []Decision) {
-	in.path = &PathState{prefix: prefix, known: map[*Term]bool{}, started: time.Now()}
+	in.path = &PathState{prefix: prefix, known: map[*Term]bool{}, started: time.Now(), pbArrays: map[*Array]*pbToken{}, tsTokens: map[*Term]Value{}}
 	in.spec = nil
 	in.lastNow = nil
 	in.stats = pathStats{}
